@@ -257,6 +257,8 @@ var Mutants = map[string][]Mutant{
 		{"setter writes the stack", "canvas.go", `func \(c \*Context\) SetStrokeWidth\(width float64\) \{\n`, "func (c *Context) SetStrokeWidth(width float64) {\n\tc.stack = nil\n", "E11.ctx-setter"},
 	},
 	"C16": {
+		{"lines aligned by the break width including trailing spaces", "text.go", `x \+= width - \(breaks\[j\]\.Width - eolWidth\)`, "x += width - breaks[j].Width", "E11.aligned-width-excludes-eol"},
+		{"trailing white space stretched like the rest of the line", "text.go", `if 0\.0 < width && i != bi \{`, "if 0.0 < width {", "E11.aligned-width-excludes-eol"},
 		{"line heights skip spans whose face is not larger", "text.go", `(?s)(\tif mode == HorizontalTB \{\n)(\t\tfor _, span := range l\.spans \{\n\t\t\tif span\.IsText\(\) \{\n)`, "${1}\t\tsize := 0.0\n${2}\t\t\t\tif span.Face.Size <= size {\n\t\t\t\t\tcontinue\n\t\t\t\t}\n\t\t\t\tsize = span.Face.Size\n", "E3.line-heights-every-span"},
 		{"text bounds from the first and last span of the slice", "text.go", `(?s)(func \(t \*Text\) Bounds\(\) Rect \{.*?)\t\tfor _, span := range line\.spans \{\n(.*?)\n\t\t\}\n`, "${1}\t\tif len(line.spans) == 0 {\n\t\t\tcontinue\n\t\t}\n\t\tfirst, last := line.spans[0], line.spans[len(line.spans)-1]\n\t\trect = rect.Add(Rect{first.X, -line.y, last.X + last.Width, -line.y})\n\t\tfor _, span := range line.spans {\n${2}\n\t\t}\n", "E3.text-bounds-fold"},
 		{"run index taken before the leading white space is skipped", "text.go", `(?s)(\t\teolSkip := 0 // number of glyphs after the last box\n)(.*?)\t\tk := glyphIndices\.index\(a\) // index into runs\n`, "${1}\t\tk := glyphIndices.index(ag)\n${2}", "E11.derived-before-update"},
